@@ -1178,6 +1178,11 @@ func (te *TemplateEngine) cloneRun(source *Run) Run {
 		Text:       Text{Content: source.Text.Content, Space: source.Text.Space},
 	}
 
+	// 复制分页符（如果有）
+	if source.Break != nil {
+		newRun.Break = &Break{Type: source.Break.Type}
+	}
+
 	// 复制图像（如果有）
 	if source.Drawing != nil {
 		// 暂时保持简单复制，图像的深度复制比较复杂
@@ -2098,8 +2103,15 @@ func (te *TemplateEngine) replaceVariablesInParagraph(para *Paragraph, data *Tem
 
 	currentIndex := 0
 	for i := range para.Runs {
-		runText := para.Runs[i].Text.Content
+		run := &para.Runs[i]
+		runText := run.Text.Content
+		hasNonText := run.Break != nil || run.Drawing != nil || run.FieldChar != nil || run.InstrText != nil
 		if runText != "" {
+			textRun := run
+			if hasNonText {
+				// 文本部分与非文本内容分开记录，避免文本被拆分时非文本内容被重复
+				textRun = &Run{Properties: run.Properties, Text: run.Text}
+			}
 			runInfos = append(runInfos, struct {
 				startIndex int
 				endIndex   int
@@ -2107,10 +2119,24 @@ func (te *TemplateEngine) replaceVariablesInParagraph(para *Paragraph, data *Tem
 			}{
 				startIndex: currentIndex,
 				endIndex:   currentIndex + len(runText),
-				run:        &para.Runs[i],
+				run:        textRun,
 			})
 			fullText += runText
 			currentIndex += len(runText)
+		}
+		if hasNonText {
+			// 非文本内容（分页符、图片、域）以零长度片段记录在其原始位置，替换变量后原样保留
+			rest := *run
+			rest.Text = Text{}
+			runInfos = append(runInfos, struct {
+				startIndex int
+				endIndex   int
+				run        *Run
+			}{
+				startIndex: currentIndex,
+				endIndex:   currentIndex,
+				run:        &rest,
+			})
 		}
 	}
 
@@ -2232,6 +2258,9 @@ func (te *TemplateEngine) replaceVariablesSequentially(originalRunInfos []struct
 			newRuns = append(newRuns, beforeRuns...)
 		}
 
+		// 位于占位符起点的非文本内容排在替换结果之前
+		newRuns = append(newRuns, te.nonTextRunsBetween(originalRunInfos, varStart, varStart+1)...)
+
 		// 处理变量替换
 		varName := originalText[varNameStart:varNameEnd]
 		if value, exists := data.Variables[varName]; exists {
@@ -2256,6 +2285,9 @@ func (te *TemplateEngine) replaceVariablesSequentially(originalRunInfos []struct
 			}
 		}
 
+		// 位于占位符内部的非文本内容排在替换结果之后
+		newRuns = append(newRuns, te.nonTextRunsBetween(originalRunInfos, varStart+1, varEnd)...)
+
 		currentPos = varEnd
 	}
 
@@ -2265,6 +2297,9 @@ func (te *TemplateEngine) replaceVariablesSequentially(originalRunInfos []struct
 		afterRuns := te.extractRunsForSegment(originalRunInfos, currentPos, len(originalText), afterText)
 		newRuns = append(newRuns, afterRuns...)
 	}
+
+	// 段落末尾的非文本内容
+	newRuns = append(newRuns, te.nonTextRunsBetween(originalRunInfos, len(originalText), len(originalText)+1)...)
 
 	// 如果没有找到任何变量但文本发生了变化，处理条件语句
 	if !hasChanges {
@@ -2309,6 +2344,15 @@ func (te *TemplateEngine) processConditionals(originalRunInfos []struct {
 	run        *Run
 }, originalText string, data *TemplateData) ([]Run, bool) {
 
+	// 条件语句只作用于文本片段
+	textInfos := originalRunInfos[:0:0]
+	for _, info := range originalRunInfos {
+		if info.endIndex > info.startIndex {
+			textInfos = append(textInfos, info)
+		}
+	}
+	originalRunInfos = textInfos
+
 	processedText := te.renderConditionals(originalText, data.Conditions)
 
 	if processedText == originalText {
@@ -2342,6 +2386,13 @@ func (te *TemplateEngine) extractRunsForSegment(originalRunInfos []struct {
 	runs := make([]Run, 0)
 
 	for _, runInfo := range originalRunInfos {
+		// 零长度片段（非文本内容）：位于文本段内时原样保留
+		if runInfo.endIndex == runInfo.startIndex {
+			if runInfo.startIndex >= segmentStart && runInfo.startIndex < segmentEnd {
+				runs = append(runs, te.cloneRun(runInfo.run))
+			}
+			continue
+		}
 		// 检查Run是否与文本段有重叠
 		if runInfo.endIndex > segmentStart && runInfo.startIndex < segmentEnd {
 			overlapStart := max(runInfo.startIndex, segmentStart)
@@ -2364,6 +2415,21 @@ func (te *TemplateEngine) extractRunsForSegment(originalRunInfos []struct {
 		}
 	}
 
+	return runs
+}
+
+// nonTextRunsBetween 返回位置在 [from, to) 内的零长度片段（非文本内容）的副本
+func (te *TemplateEngine) nonTextRunsBetween(originalRunInfos []struct {
+	startIndex int
+	endIndex   int
+	run        *Run
+}, from, to int) []Run {
+	runs := make([]Run, 0)
+	for _, runInfo := range originalRunInfos {
+		if runInfo.endIndex == runInfo.startIndex && runInfo.startIndex >= from && runInfo.startIndex < to {
+			runs = append(runs, te.cloneRun(runInfo.run))
+		}
+	}
 	return runs
 }
 
